@@ -2,6 +2,7 @@ import CryoCat.Lemmas.C02_WriteOk
 import CryoCat.Lemmas.C02_NumWrite
 import CryoCat.Lemmas.C02_Crlf
 import CryoCat.Lemmas.C02_ComRead
+import CryoCat.Lemmas.C02_Hard
 /-! C02 — property theorems: STAR files read back to the same blocks, columns, rows and values.
 Only theorems and non-vacuity examples; the proofs are in `Lemmas/C02*.lean`. The model
 (`Model/C02.lean`) is the one the driver executes; the layout grammar of the statement is
@@ -38,16 +39,56 @@ theorem writer_literals_documented :
 /-- the `comments` argument of `Starfile.write` (`\n# <c>` per comment, then `\n`, before the specifier
 line), the value of a COMMENT token (stripped), `parse_newline_or_comments`, the order of the comment
 lists `Starfile.read` concatenates per block, its `data_id` branch, `get_specifier_id` and
-`get_frame_and_comments` are the documented ones -/
+`get_frame_and_comments` are the documented ones (function bodies as normalised dumps: locals renamed
+`v0, v1, …` in order of first binding, error messages dropped — renaming a local does not matter) -/
 theorem comments_and_selection_documented :
     Gen.C02.commentLine = [['\n', '#', ' '], []] ∧ Gen.C02.commentsEnd = ['\n'] ∧
     Gen.C02.commentValue = "line[index+1:].strip()" ∧
-    Gen.C02.commentsOrder = "specifier_comments+column_comments+rows_comments" ∧
-    Gen.C02.dataIdBranch = "ifdata_idisnotNone:;return(frames[data_id],specifiers[data_id],comments[data_id]);else:;return(frames,specifiers,comments)" ∧
-    Gen.C02.newlineOrComments = "comments=[];whileTrue:;comment_token=Token.check_then_consume(tokens,TokenType.COMMENT);ifcomment_tokenisnotNone:;comments.append(comment_token.value);elifnotToken.check_then_consume(tokens,TokenType.NEWLINE):;break;returncomments" ∧
-    Gen.C02.getSpecifierId = "ifspecifier_idinspeficiers:;returnspeficiers.index(specifier_id);else:;returnNone" ∧
-    Gen.C02.getFrameAndComments = "frames,specifiers,comments=Starfile.read(file_path);spec_id=Starfile.get_specifier_id(specifiers,specifier);ifspec_idisNone:;raiseValueError(f'Thereisnoentrywithspecifier{specifier}.');return(frames[spec_id],comments[spec_id])" :=
+    Gen.C02.commentsOrder = "parse_specifier+parse_columns+parse_rows" ∧
+    Gen.C02.dataIdBranch = "ifv1isnotNone:;return(v5[v1],v7[v1],v6[v1]);else:;return(v5,v7,v6)" ∧
+    Gen.C02.newlineOrComments = "v1=[];whileTrue:;v2=Token.check_then_consume(v0,TokenType.COMMENT);ifv2isnotNone:;v1.append(v2.value);elifnotToken.check_then_consume(v0,TokenType.NEWLINE):;break;returnv1" ∧
+    Gen.C02.getSpecifierId = "ifv1inv0:;returnv0.index(v1);else:;returnNone" ∧
+    Gen.C02.getFrameAndComments = "v2,v3,v4=Starfile.read(v0);v5=Starfile.get_specifier_id(v3,v1);ifv5isNone:;raiseValueError();return(v2[v5],v4[v5])" :=
   ⟨by decide, by decide, rfl, rfl, rfl, rfl, rfl, rfl⟩
+
+/-- **Signature defaults** the statement depends on: `Starfile.write(frames, path, specifiers=None,
+comments=None, number_columns=True, float_precision=6)`, `specifiers=None` means `["data"] * len(frames)`,
+`comments=None` means no comments, then the length check and `frames[i] = f.round(float_precision)`;
+`Starfile.read(file_path, data_id=None)`; `remove_lines(..., output_file=None, data_specifier=None,
+number_columns=True)` -/
+theorem signature_defaults_documented :
+    Gen.C02.writeSignature = ["frames", "path", "specifiers=None", "comments=None", "number_columns=True", "float_precision=6"] ∧
+    Gen.C02.readSignature = ["file_path", "data_id=None"] ∧
+    Gen.C02.removeLinesSignature = ["file_path", "lines_to_remove", "output_file=None", "data_specifier=None", "number_columns=True"] ∧
+    Gen.C02.defaultSpecifier = ['d', 'a', 't', 'a'] ∧ Gen.C02.numberColumnsDefault = true ∧
+    Gen.C02.removeLinesNumberColumnsDefault = true ∧
+    Gen.C02.writeDefaults = "ifv2isNone:;v2=['data']*len(v0);ifv3isNone:;v3=(None,)*len(v0);iflen(v0)!=len(v2)orlen(v0)!=len(v3)orlen(v2)!=len(v3):;raiseValueError();forv6,v7inenumerate(v0):;v0[v6]=v7.round(v5)" :=
+  ⟨by decide, by decide, by decide, by decide, rfl, rfl, rfl⟩
+
+/-- **The parser half is the documented one**: whole-body dumps (statement kinds and expressions,
+locals renamed, messages dropped) of `parse_specifier`, `parse_columns`, `parse_column`, `parse_rows`,
+`check`, `consume`, `check_then_consume`, `lookahead`, the loop of `Starfile.read` and
+`_to_numeric_if_possible` — what `parseSpecifier`, `parseColumns`, `parseLabels`, `rowsGo`,
+`lookaheadLit`, `blocksGoC` and `colNumeric` model. An added, removed or changed statement breaks
+this theorem; a renamed local or a reworded error message does not. -/
+theorem parser_documented :
+    Gen.C02.body_parse_specifier = "v1=Token.parse_newline_or_comments(v0);v2=Token.consume(v0,TokenType.LITERAL);return(v1,v2.value)" ∧
+    Gen.C02.body_parse_columns = "v1=Token.parse_newline_or_comments(v0);v2=[];Token.consume(v0,TokenType.LOOP);Token.consume(v0,TokenType.NEWLINE);whileToken.check(v0,TokenType.PROPERTY):;v3=Token.parse_column(v0);v2.append(v3);return(v1,v2)" ∧
+    Gen.C02.body_parse_column = "v1=Token.consume(v0,TokenType.PROPERTY);Token.check_then_consume(v0,TokenType.COMMENT);Token.consume(v0,TokenType.NEWLINE);returnv1.value[1:]" ∧
+    Gen.C02.body_parse_rows = "v2=Token.parse_newline_or_comments(v0);v3=False;v4=[];whilenotv3:;v5=[];forv6inrange(len(v1)):;v7=Token.check_then_consume(v0,TokenType.LITERAL);ifv7isNone:;v3=True;break;else:;v5.append(v7.value);else:;Token.consume(v0,TokenType.NEWLINE);v4.append(v5);return(v2,pd.DataFrame(v4,columns=v1))" ∧
+    Gen.C02.body_check = "iflen(v0)==0:;raiseIOError();ifv0[-1].token_type==v1:;returnTrue;returnFalse" ∧
+    Gen.C02.body_consume = "iflen(v0)==0:;raiseIOError();ifv0[-1].token_type==v1:;returnv0.pop();else:;raiseIOError()" ∧
+    Gen.C02.body_check_then_consume = "iflen(v0)>0andv0[-1].token_type==v1:;returnToken.consume(v0,v1);returnNone" ∧
+    Gen.C02.body_lookahead = "v2=set(v2);forv3inrange(len(v0)-1,-1,-1):;ifv0[v3].token_type==v1:;returnTrue;elifv0[v3].token_typeinv2:;continue;else:;break;returnFalse" ∧
+    Gen.C02.body_read = "withopen(v0,mode='r')asv2:;v3=v2.read();v4=Token.tokenize(v3);v5=[];v6=[];v7=[];whileToken.lookahead(v4,TokenType.LITERAL,[TokenType.NEWLINE,TokenType.COMMENT]):;v8,v9=Token.parse_specifier(v4);v10,v11=Token.parse_columns(v4);v12,v13=Token.parse_rows(v4,v11);v6.append(v8+v10+v12);v7.append(v9);v5.append(v13);Token.parse_newline_or_comments(v4);iflen(v4)>0:;raiseIOError();forv14,v15inenumerate(v5):;v5[v14]=v15.apply(Starfile._to_numeric_if_possible);ifv1isnotNone:;return(v5[v1],v7[v1],v6[v1]);else:;return(v5,v7,v6)" ∧
+    Gen.C02.body_to_numeric_if_possible = "try:;returnpd.to_numeric(v0);except(ValueError,TypeError):;returnv0" :=
+  ⟨rfl, rfl, rfl, rfl, rfl, rfl, rfl, rfl, rfl, rfl⟩
+
+/-- `Starfile.remove_lines` is the documented one (what `removeLines` models): read, block 0 or the
+block `get_specifier_id` finds (absent: a warning and nothing written), drop the rows at the given
+positions, write the frames back with the specifiers and comments `read` returned -/
+theorem remove_lines_documented :
+    Gen.C02.body_remove_lines = "v5,v6,v7=Starfile.read(v0);ifv3isNone:;v8=0;else:;v8=Starfile.get_specifier_id(v6,v3);ifv8isNone:;warnings.warn();return;v9=v5[v8].index[v1];v5[v8]=v5[v8].drop(v9);v5[v8].reset_index(drop=True,inplace=True);ifv2isnotNone:;Starfile.write(v5,v2,specifiers=v6,comments=v7,number_columns=v4);else:;return(v5,v6,v7)" := rfl
 
 /-! ### reading -/
 
@@ -288,6 +329,143 @@ theorem get_frame_and_comments_spec (txt : List Char) (s : Word) :
     unfold getFrameAndComments
     simp [he]
 
+/-! ### hardening pass: white space, integer typing, defaults, `remove_lines`, the statement's layout class -/
+
+/-- **`isWs` is the full `str.isspace` set** (without the line feed the text is split at): TAB, VT, FF,
+CR, U+001C–U+001F, blank, U+0085, U+00A0, U+1680, U+2000–U+200A, U+2028, U+2029, U+202F, U+205F,
+U+3000 — so `WordOk`/`CellOk`/`PadOk` (hence `tokenizeLine_spec`, `read_any_layout`, `star_roundtrip`)
+speak about exactly the words Python's tokenizer sees. The harness compares this set with
+`str.isspace` over all 1 114 112 code points on every run. -/
+theorem isWs_is_str_isspace (c : Char) :
+    isWs c = true ↔ (c.toNat = 0x09 ∨ (0x0B ≤ c.toNat ∧ c.toNat ≤ 0x0D) ∨ (0x1C ≤ c.toNat ∧ c.toNat ≤ 0x20) ∨ c.toNat = 0x85 ∨
+      c.toNat = 0xA0 ∨ c.toNat = 0x1680 ∨ (0x2000 ≤ c.toNat ∧ c.toNat ≤ 0x200A) ∨ (0x2028 ≤ c.toNat ∧ c.toNat ≤ 0x2029) ∨
+      c.toNat = 0x202F ∨ c.toNat = 0x205F ∨ c.toNat = 0x3000) := by
+  simp only [isWs, List.any_eq_true, wsRanges, List.mem_cons, List.mem_nil_iff, or_false, Bool.and_eq_true, decide_eq_true_eq]
+  constructor
+  · rintro ⟨r, hr, h1, h2⟩
+    rcases hr with rfl | rfl | rfl | rfl | rfl | rfl | rfl | rfl | rfl | rfl | rfl <;> dsimp only at h1 h2 <;> omega
+  · intro h
+    rcases h with h | h | h | h | h | h | h | h | h | h | h
+    · exact ⟨(0x09, 0x09), by simp, by dsimp only; omega, by dsimp only; omega⟩
+    · exact ⟨(0x0B, 0x0D), by simp, by dsimp only; omega, by dsimp only; omega⟩
+    · exact ⟨(0x1C, 0x20), by simp, by dsimp only; omega, by dsimp only; omega⟩
+    · exact ⟨(0x85, 0x85), by simp, by dsimp only; omega, by dsimp only; omega⟩
+    · exact ⟨(0xA0, 0xA0), by simp, by dsimp only; omega, by dsimp only; omega⟩
+    · exact ⟨(0x1680, 0x1680), by simp, by dsimp only; omega, by dsimp only; omega⟩
+    · exact ⟨(0x2000, 0x200A), by simp, by dsimp only; omega, by dsimp only; omega⟩
+    · exact ⟨(0x2028, 0x2029), by simp, by dsimp only; omega, by dsimp only; omega⟩
+    · exact ⟨(0x202F, 0x202F), by simp, by dsimp only; omega, by dsimp only; omega⟩
+    · exact ⟨(0x205F, 0x205F), by simp, by dsimp only; omega, by dsimp only; omega⟩
+    · exact ⟨(0x3000, 0x3000), by simp, by dsimp only; omega, by dsimp only; omega⟩
+
+/-- **Integer typing of written cells**: `str(n)` of any integer is an integer token (`[+-]?d+`), the
+`repr` of any float — finite from any digit string, infinite, NaN — never is; so (with
+`written_int_column_typing`) an integer column comes back integer-typed and a float column does not. -/
+theorem writer_cells_integer :
+    (∀ n : Int, isIntTok (cellText (.int n)) = true) ∧ (∀ f : FloatVal, isIntTok (cellText (.flt f)) = false) :=
+  ⟨intStr_isInt, floatStr_not_int⟩
+
+/-- **A written column comes back integer-typed iff it was written from integers** (or from text cells
+that are themselves integer tokens), for a non-empty table of any typed cells -/
+theorem written_int_column_typing (rows : List (List Cell)) (j : Nat) (hj : ∀ r ∈ rows, j < r.length) :
+    colNumeric isIntTok (rows.map (fun r => r.map cellText)) j = true ↔
+      rows ≠ [] ∧ ∀ r ∈ rows, ∀ c, r[j]? = some c → c.isInteger = true :=
+  typed_column_gen isIntTok Cell.isInteger rows j hj (fun _ _ c _ => cell_int_iff c)
+
+/-- **`specifiers=None`**: the tables are written under the name `data` each, and — the name `data`
+being a cell the round trip is claimed for — read back as such -/
+theorem default_specifiers_roundtrip (numberColumns : Bool) (bs : List Block) (h : ∀ b ∈ bs, BlockOk b)
+    (he : EmptyOnlyLast bs) :
+    (withDefaultNames bs).map Block.name = defaultSpecifiers bs.length ∧
+    readStar (printStar numberColumns (withDefaultNames bs)) = .ok (withDefaultNames bs) := by
+  refine ⟨by simp [withDefaultNames, defaultSpecifiers, List.map_map, Function.comp_def, List.map_const'], ?_⟩
+  apply star_roundtrip
+  · intro b hb
+    obtain ⟨b0, hb0, rfl⟩ := List.mem_map.1 hb
+    obtain ⟨_, h2, h3, h4⟩ := h b0 hb0
+    exact ⟨(by decide : CellOk Gen.C02.defaultSpecifier), h2, h3, h4⟩
+  · clear h
+    induction bs with
+    | nil => trivial
+    | cons b rest ih =>
+      cases rest with
+      | nil => trivial
+      | cons b2 rest2 => exact ⟨he.1, ih he.2⟩
+
+/-- **`remove_lines` keeps exactly the rows at positions not listed, in order** -/
+theorem remove_lines_rows {α : Type} (idx : List Nat) (rows : List α) :
+    (dropRows idx rows).Sublist rows ∧ (∀ x, x ∈ dropRows idx rows ↔ ∃ k, rows[k]? = some x ∧ k ∉ idx) ∧
+    dropRows [] rows = rows := by
+  refine ⟨dropRows_sublist idx rows, fun x => ?_, dropRowsGo_nil 0 rows⟩
+  have := dropRowsGo_mem idx 0 rows x
+  simpa [dropRows] using this
+
+/-- **`remove_lines` round trip**: the file it writes — the tables with the listed rows of block `k`
+dropped, under the comments `read` returned — is read back as exactly those tables with those comments
+(stripped), as long as no block but the last becomes empty. -/
+theorem remove_lines_roundtrip (numberColumns : Bool) (bs : List Block) (coms : List (List Comment)) (k : Nat) (idx : List Nat)
+    (txt : List Char) (hw : printStarC numberColumns (coms.map some) (dropAt bs k idx) = some txt)
+    (hc : ComsOk (coms.map some)) (h : ∀ b ∈ bs, BlockOk b) (he : EmptyOnlyLast (dropAt bs k idx)) :
+    readStarC txt = .ok ((dropAt bs k idx).zip (coms.map (fun cs => cs.map stripWs))) := by
+  have := readStarC_printStarC numberColumns (coms.map some) (dropAt bs k idx) txt hw hc (dropAt_ok bs k idx h) he
+  simpa [List.map_map, Function.comp_def, comRead] using this
+
+/-- a text ending on the last label line of an empty last block, no final newline (class C02-K3) -/
+abbrev k3Doc : Doc :=
+  { blocks := [{ pre := [], name := "data_".toList, nameLine := ⟨[], [("data_".toList, [])], []⟩, mid := [],
+                 loopLine := ⟨[], [("loop_".toList, [])], []⟩, cols := ["a".toList],
+                 labels := [⟨[], [("_a".toList, [])], []⟩], post := [], rows := [] }],
+    trailing := [] }
+/-- two blocks with no blank / comment line between them (class C02-K4) -/
+abbrev k4Doc : Doc :=
+  { blocks := [{ pre := [], name := "data_a".toList, nameLine := ⟨[], [("data_a".toList, [])], []⟩, mid := [],
+                 loopLine := ⟨[], [("loop_".toList, [])], []⟩, cols := ["x".toList, "y".toList],
+                 labels := [⟨[], [("_x".toList, [])], []⟩, ⟨[], [("_y".toList, [])], []⟩], post := [],
+                 rows := [⟨[], [("1".toList, [' ']), ("2".toList, [])], []⟩] },
+               { pre := [], name := "data_b".toList, nameLine := ⟨[], [("data_b".toList, [])], []⟩, mid := [],
+                 loopLine := ⟨[], [("loop_".toList, [])], []⟩, cols := ["z".toList],
+                 labels := [⟨[], [("_z".toList, [])], []⟩], post := [],
+                 rows := [⟨[], [("3".toList, [])], []⟩] }],
+    trailing := [⟨[], [], []⟩] }
+
+/-- **The statement's layout class is wider than what the reader accepts** (open findings C02-K3 and
+C02-K4; the reason for the two extra constraints of `Doc.Ok`). `Doc.OkStatement` is the layout grammar
+exactly as worded ("blank and comment lines *may* … separate blocks", "with or without final newline",
+an empty loop only last); `read_any_layout` is proved for `Doc.Ok = OkStatement ∧ SepOk`. Without `SepOk`:
+(K3) a text ending on the last label line of an empty last block without final newline makes
+`Token.check` raise on the exhausted queue; (K4) a block that directly follows the rows of the previous
+one has its name consumed as a cell and the reader fails with left-over tokens. Both texts read fine
+once a line break / a blank line is added. -/
+theorem statement_layout_wider_than_reader :
+    (∀ d : Doc, d.Ok ↔ d.OkStatement ∧ SepOk d.trailing d.blocks) ∧
+    (k3Doc.OkStatement ∧ k3Doc.text = "data_\nloop_\n_a".toList ∧ readStar k3Doc.text = .error (.expected .prop true) ∧
+      readStar "data_\nloop_\n_a\n".toList = .ok [{ name := "data_".toList, cols := ["a".toList], rows := [] }]) ∧
+    (k4Doc.OkStatement ∧ k4Doc.text = "data_a\nloop_\n_x\n_y\n1 2\ndata_b\nloop_\n_z\n3\n".toList ∧
+      readStar k4Doc.text = .error .trailing ∧
+      readStar "data_a\nloop_\n_x\n_y\n1 2\n\ndata_b\nloop_\n_z\n3\n".toList =
+        .ok [{ name := "data_a".toList, cols := ["x".toList, "y".toList], rows := [["1".toList, "2".toList]] },
+             { name := "data_b".toList, cols := ["z".toList], rows := [["3".toList]] }]) := by
+  refine ⟨fun d => ?_, ⟨by decide, by decide, by decide +kernel, by decide +kernel⟩, ⟨by decide, by decide, by decide +kernel, by decide +kernel⟩⟩
+  unfold Doc.Ok Doc.OkStatement
+  constructor
+  · rintro ⟨h1, h2, h3, h4⟩
+    refine ⟨⟨h1, h2, ?_, h4⟩, h3⟩
+    generalize d.blocks = bs at h3
+    induction bs with
+    | nil => trivial
+    | cons b rest ih =>
+      cases rest with
+      | nil => trivial
+      | cons b2 rest2 => exact ⟨h3.1, ih h3.2.2⟩
+  · rintro ⟨⟨h1, h2, _, h4⟩, h3⟩
+    exact ⟨h1, h2, h3, h4⟩
+
+/-- outside the quantifier, recorded: a text whose last row is short (`1 2` / `3` under two labels) is
+not a STAR text of the statement; the reader (and the model) silently drops the incomplete row -/
+theorem short_last_row_dropped :
+    readStar "data_\nloop_\n_a\n_b\n1 2\n3\n".toList =
+      .ok [{ name := "data_".toList, cols := ["a".toList, "b".toList], rows := [["1".toList, "2".toList]] }] := by decide +kernel
+
 /-- **Witness for the open finding C02-K1** (and the reason `loop_` is excluded in `BlockOk`): a text
 cell equal to the reserved word is written verbatim and the reader then fails. -/
 theorem loop_cell_breaks_roundtrip :
@@ -379,5 +557,18 @@ example : comRead (some [" made by hand ".toList, "x".toList]) = ["made by hand"
 example : readSel (printStar true exBlocks) (-1) = .ok (exBlocks[1], []) ∧ readSel (printStar true exBlocks) 2 = .error .index := by decide
 example : getFrameAndComments (printStar true exBlocks) "data_stopgap_motl".toList = .ok (exBlocks[1], []) ∧
           getFrameAndComments (printStar true exBlocks) "data_x".toList = .error .noEntry := by decide
+
+/-! non-vacuity of the hardening theorems -/
+example : tokenizeLine "a\u2003b\u3000\u00a0c\u200bd".toList = (["a".toList, "b".toList, "c\u200bd".toList], none) := by decide
+example : ["12", "-3", "+7", "0012"].map (fun s => isIntTok s.toList) = [true, true, true, true] ∧
+          ["1.0", "1e5", "inf", "", "-", "1_0", "٣"].map (fun s => isIntTok s.toList) = List.replicate 7 false := by decide
+example : (exTyped.map TBlock.texts).map blockInts = [[false, false, true]] := by decide
+example : dropRows [0, 2] ["a", "b", "c", "d"] = ["b", "d"] := by decide
+example : (dropAt exBlocks 0 [0]).map (fun b => b.rows.length) = [0, 0] := by decide
+example : removeLines (printStar true exBlocks) [] (some "data_stopgap_motl".toList) false
+    = .ok "\n\ndata_optics\n\nloop_\n_rlnVoltage\n_rlnName\n300.0     \topticsGroup1\n\n\n\ndata_stopgap_motl\n\nloop_\n_x\n\n\n".toList := by decide +kernel
+example : removeLines (printStar true exBlocks) [] (some "data_x".toList) true = .error .notFound ∧
+          removeLines (printStar true exBlocks) [1] none true = .error .rowIndex := by decide +kernel
+example : (withDefaultNames exBlocks).map Block.name = ["data".toList, "data".toList] := by decide
 
 end CryoCat.C02
